@@ -36,7 +36,16 @@ def parseOp (ws : List String) : Op :=
   | ["async_send", h] => match hId h with | some h => .asyncSend h | none => bad
   | ["bind", h] => match hId h with | some h => .bind h | none => bad
   | ["udp_send", h] => match hId h with | some h => .udpSend h | none => bad
-  | ["work"] => .work
+  | ["work"] => .work .queueWork
+  | ["fs", "open"] => .work (.fs .open 0)
+  | ["fs", "close"] => .work (.fs .close 0)
+  | ["fs", "stat"] => .work (.fs .stat 0)
+  | ["fs", "read", n] => match n.toNat? with | some n => if n == 0 then bad else .work (.fs .read n) | none => bad
+  | ["fs", "write", n] => match n.toNat? with | some n => if n == 0 then bad else .work (.fs .write n) | none => bad
+  | ["getaddrinfo"] => .work .getaddrinfo
+  | ["getnameinfo"] => .work .getnameinfo
+  | ["random"] => .work .random
+  | ["use_iouring"] => .useIoUring
   | ["work_null"] => .workNull
   | ["reject", "getaddrinfo"] => .reject 0
   | ["reject", "getnameinfo"] => .reject 1
@@ -73,7 +82,16 @@ def opText : Op → String
   | .asyncSend h => s!"async_send {hn h}"
   | .bind h => s!"bind {hn h}"
   | .udpSend h => s!"udp_send {hn h}"
-  | .work => "work"
+  | .work .queueWork => "work"
+  | .work (.fs .open _) => "fs open"
+  | .work (.fs .close _) => "fs close"
+  | .work (.fs .stat _) => "fs stat"
+  | .work (.fs .read n) => s!"fs read {n}"
+  | .work (.fs .write n) => s!"fs write {n}"
+  | .work .getaddrinfo => "getaddrinfo"
+  | .work .getnameinfo => "getnameinfo"
+  | .work .random => "random"
+  | .useIoUring => "use_iouring"
   | .workNull => "work_null"
   | .reject a => "reject " ++ (if a == 0 then "getaddrinfo" else if a == 1 then "getnameinfo" else "random")
   | .connectBad h => s!"connect_bad {hn h}"
@@ -99,8 +117,12 @@ def modeOf : String → Option Mode
 
 def ownerName : Owner → String
   | .async => "async" | .h id => hn id | .inotify => "inotify" | .signal => "signal" | .other => "other"
+  | .ring cq => "ring=" ++ (if cq.isEmpty then "-" else ",".intercalate (cq.map fun r => s!"r{r}"))
 def ownerOf (w : String) : Owner :=
   if w == "async" then .async else if w == "signal" then .signal else if w == "inotify" then .inotify
+  else if w.startsWith "ring=" then
+    let t := (w.drop 5).toString
+    .ring (if t == "-" then [] else (t.splitOn ",").filterMap rId)
   else match hId w with | some h => .h h | none => .other
 
 def b01 (b : Bool) : String := if b then "1" else "0"
@@ -119,7 +141,10 @@ def render : Event → List String
     | .check => [s!"cb check {hn id}"] | .async => [s!"cb async {hn id}"]
     | .poll => [s!"cb poll {hn id} {a} {b}"]
     | .close => [s!"cb close {hn id} {flagStr (a % 2 == 1) (a / 2 % 2 == 1) (a / 4 % 2 == 1)}"]
-    | .work => [s!"cb work r{id} {a}"]
+    | .work =>
+      let name := if b == 1 then "fs" else if b == 2 then "getaddrinfo" else if b == 3 then "getnameinfo"
+                  else if b == 4 then "random" else "work"
+      [s!"cb {name} r{id} {a}"]
     | .udpSend => [s!"cb udp_send r{id} {a}"]
     | .connect => [s!"cb connect r{id} {a}"]
   | .endcb => ["endcb"]
@@ -141,6 +166,7 @@ structure Prog where
   main : List MainOp := []
   oracle : List PollRes := []
   bad : List String := []
+  ringEnv : Bool := true
 
 def splitOn (ws : List String) (sep : String) : List (List String) :=
   let (acc, cur) := ws.foldl (fun (acc, cur) w => if w == sep then (acc ++ [cur], []) else (acc, cur ++ [w])) ([], [])
@@ -190,6 +216,7 @@ def addLine (p : Prog) (ws : List String) : Prog :=
     | none => { p with main := p.main ++ [.op (.bad s!"run {m}")] }
   | ["op", "loop_close"] => { p with main := p.main ++ [.loopClose] }
   | "op" :: rest => { p with main := p.main ++ [.op (parseOp rest)] }
+  | ["env", "iouring", v] => { p with ringEnv := v != "0" }
   | "env" :: "poll" :: rest => { p with oracle := p.oracle ++ [parsePoll rest] }
   | [] => p
   | _ => { p with bad := p.bad ++ [" ".intercalate ws] }
@@ -199,7 +226,7 @@ def scriptOf (p : Prog) : Script := fun key occ g =>
   (if g ≥ p.cblimit then [Op.stopLoop] else [])
 
 def runProg (p : Prog) : List String :=
-  let s := emitObs (initLoop p.clock0 p.metrics p.oracle)
+  let s := emitObs { initLoop p.clock0 p.metrics p.oracle with ringEnv := p.ringEnv }
   let s := runMain (scriptOf p) 1000000 s p.main
   p.bad.map (fun l => s!"bad-line {l}") ++ (s.trace.reverse.flatMap render)
 
